@@ -60,6 +60,10 @@ def load_table(name):
     return json.load(open(os.path.join(VERIF, "engine", "tables", name)))["entries"]
 
 
+def root_fn(fid):
+    return re.sub(r"(::\{closure#\d+\})+$", "", fid)
+
+
 def run(db, tier):
     rep = Report("C04", tier, EXPLANATION, RULE)
     for r, t in (("R-DIVERGE", "a panicking match arm over a syntactic AST enum must be an audited impossible case"),
@@ -236,7 +240,7 @@ def run(db, tier):
                   "ErrorReported::new called outside the emitters: a failure without a printed error")
     rep.floor("ErrorReported::new call sites", len(makers), 3)
     IGNORE_OK = {
-        "diagnostic::Emitter::emit::{closure#0}": "the per-diagnostic result inside Emitter::emit; emit itself returns ErrorReported::new()",
+        "diagnostic::Emitter::emit": "the per-diagnostic result inside Emitter::emit; emit itself returns ErrorReported::new()",
         "cli_def::cli::parse_args": "followed by std::process::exit(1)",
         "cli_def::cli::parse_subcommand": "followed by std::process::exit(1)",
     }
@@ -262,11 +266,11 @@ def run(db, tier):
                     sevs |= sv
                 key = "ignore|%s|%d" % (f.id, sum(1 for i in rep.instances if i["key"].startswith("ignore|%s|" % f.id)) + 1)
                 loc = "%s:%d" % (f.file, t["ln"])
-                if f.id in IGNORE_OK:
+                if root_fn(f.id) in IGNORE_OK:
                     exit_after = True
-                    if "process::exit" in IGNORE_OK[f.id]:
+                    if "process::exit" in IGNORE_OK[root_fn(f.id)]:
                         exit_after = any(t2.get("f") == "std::process::exit" for bj, t2 in f.calls() if bj in f.reachable_from(bi))
-                    rep.check(exit_after, "R-ERRFLOW", key, loc, "audited: " + IGNORE_OK[f.id], "audited ignore() is no longer followed by process::exit")
+                    rep.check(exit_after, "R-ERRFLOW", key, loc, "audited: " + IGNORE_OK[root_fn(f.id)], "audited ignore() is no longer followed by process::exit")
                 elif unknown or (sevs - {"warning", "info"}):
                     rep.bad("R-ERRFLOW", key, loc, "ignore() applied to an emission of severity %s: an error would be printed while the command goes on to succeed" % (sorted(sevs) or "unknown"))
                 else:
@@ -320,10 +324,12 @@ def run(db, tier):
     # ------------------------------------------------------------------ R-ARITH
     atab = load_table("c04_arith.json")
     n_ar = n_dis = 0
-    for f in sorted(in_scope, key=lambda f: (f.file, f.line)):
+    ordinal = {}        # counted per ROOT function (closures are attributed to the function that contains them,
+    #                     so that adding an unrelated closure does not renumber audited sites)
+    for f in sorted(in_scope, key=lambda f: (root_fn(f.id), f.file, f.line, f.id)):
         if f.gen:
             continue
-        ordinal = {}
+        rid = root_fn(f.id)
         for b in f.blocks:
             t = b["t"]
             if t["k"] != "assert" or b.get("cleanup"):
@@ -351,16 +357,16 @@ def run(db, tier):
             if all("iv" in o for o in ops):
                 n_dis += 1
                 continue
-            k0 = "%s|%s" % (f.id, t["msg"])
+            k0 = "%s|%s" % (rid, t["msg"])
             ordinal[k0] = ordinal.get(k0, 0) + 1
             key = "%s|%d" % (k0, ordinal[k0])
             loc = "%s:%d" % (f.file, t["ln"])
-            ent = atab.get(f.id)
+            ent = atab.get(rid)
             if ent and ordinal[k0] <= ent.get("allow", {}).get(t["msg"], 0):
                 rep.ok("R-ARITH", key, loc, "%s on %s: audited: %s" % (t["msg"], "/".join(tys), ent["reason"]))
             elif ent:
                 rep.bad("R-ARITH", key, loc, "panicking %s on %s operands: the audit of %s covers %d such operation(s), this is one more" % (
-                    t["msg"], "/".join(tys), f.id, ent.get("allow", {}).get(t["msg"], 0)))
+                    t["msg"], "/".join(tys), rid, ent.get("allow", {}).get(t["msg"], 0)))
             else:
                 rep.bad("R-ARITH", key, loc, "panicking %s on %s operands in code reachable from text input, with no audited bound" % (t["msg"], "/".join(tys)))
     rep.floor("arithmetic asserts on small integers", n_ar, 50)
